@@ -252,6 +252,9 @@ var _ = wire.RegisterInterface(
 )
 
 func DecodeMessage(bz []byte) (msgType byte, msg PexMessage, err error) {
+	if len(bz) == 0 {
+		return 0, nil, fmt.Errorf("DecodeMessage: empty message")
+	}
 	msgType = bz[0]
 	n := new(int)
 	r := bytes.NewReader(bz)
